@@ -7,7 +7,9 @@ from vp import rt
 import tdda.rexpy.rexpy as rx
 from tdda.rexpy.rexpy import (Extractor, Examples, matrices2incremental_coverage, rex_coverage,
                               coverage_matrices, terminate_patterns_and_sort, rex_full_incremental_coverage,
-                              rex_incremental_coverage)
+                              rex_incremental_coverage, Size, RE_FLAGS)
+from vp.doubles.fakerandom import FakeRandom
+from vp.harness import rexpy_common
 
 P = rt.param({})
 NPAT = P.get('npat', 2)
@@ -176,6 +178,38 @@ def k3_n_examples(mult: List[int]) -> bool:
     return True
 
 
+SAMPLED_STRS = ['ab', 'cd', 'e1', '-']
+
+
+def k3_sampled_figures(mult: List[int], picks: List[int], dedup: bool) -> bool:
+    """
+    pre: len(mult) == 4 and all(0 <= m <= 2 for m in mult[:2]) and all(0 <= m <= 1 for m in mult[2:]) and sum(mult) >= 1
+    pre: len(picks) <= 1 and all(0 <= p_ < 4 for p_ in picks)
+    post: __return__
+    """
+    # with a Size that makes extraction work from a sample, the figures still describe the examples SUPPLIED
+    import re
+    examples = []
+    for s_, m in zip(SAMPLED_STRS, mult):
+        examples.extend([s_] * m)
+    saved = rx.random, rx.ilist
+    rx.random = FakeRandom(picks)
+    rx.ilist = rexpy_common.plain_ilist
+    try:
+        x = Extractor(examples, size=Size(do_all=1, do_all_exceptions=1, n_per_length=1), seed=1)
+    finally:
+        rx.random, rx.ilist = saved
+    supplied = [(s_, m) for s_, m in zip(SAMPLED_STRS, mult) if m > 0]
+    total = len(supplied) if dedup else sum(m for s_, m in supplied)
+    if x.n_examples(dedup=dedup) != total:
+        return False
+    rexes = x.results.rex
+    want = [sum((1 if dedup else m) for s_, m in supplied if re.fullmatch(r, s_, RE_FLAGS)) for r in rexes]
+    if list(x.coverage(dedup=dedup)) != want:
+        return False
+    return sum(x.incremental_coverage(dedup=dedup).values()) == total
+
+
 def _obs():
     obs = []
     for nex, npat, tier, to in ((3, 2, 'quick', 120), (2, 3, 'quick', 120), (3, 3, 'thorough', 1200),
@@ -185,6 +219,12 @@ def _obs():
                       'once (greedy replay agrees), order non-increasing in the chosen key, n/n_uniq are column sums',
                       'symbolic match matrix %d examples x %d patterns, frequencies 1..3, dedup symbolic'
                       % (nex, npat), param={'nex': nex, 'npat': npat}, timeout=to, tier=tier))
+    obs.append(Ob('K3', 'k3_sampled_figures', 'when a tiny Size makes extraction work from a sample, n_examples, '
+                  'coverage and incremental coverage still count the examples supplied (independent full-match '
+                  'count over all of them), with and without repeats', '4 concrete strings with symbolic '
+                  'multiplicities 0..2, 0..2, 0..1, 0..1; Size(do_all 1, do_all_exceptions 1, n_per_length 1); <=1 '
+                  'symbolic sample pick; dedup symbolic', timeout=400,
+                  stubs=['random -> FakeRandom (arbitrary subsets)', 'rexpy.ilist -> plain list']))
     obs.append(Ob('K2', 'k2_coverage', 'rex_coverage equals an independent count of full matches, with and without '
                   'repeats', '2 distinct symbolic strings len<=2, frequencies 1..3, menu of %d concrete patterns '
                   '(one unterminated)' % len(MENU), timeout=240))
@@ -209,4 +249,4 @@ def _obs():
 OBLIGATIONS = _obs()
 ASSUMPTIONS = ['expressions passed to the coverage functions are pairwise distinct (C13 gives this for rexpy output)']
 OUTSIDE = ['zero-coverage expressions need not be listed by incremental coverage (the property does not ask for it)',
-           'sampling: with more than Size.do_all examples n_examples reports the sampled working set']
+           'examples supplied through a check function (no list of all examples exists to count)']
